@@ -21,7 +21,13 @@ StrLists == Vals(TList(TStr), W) \cup {SeqV(TList(TStr), <<StrV(<<"b">>), StrV(<
               SeqV(TList(TStr), <<StrV(<<"b">>), Null(TStr)>>), SeqV(TList(TStr), <<StrV(<<"A", "b">>), StrV(<<"1", "0">>), StrV(<<"1">>), StrV(<<" ", "a">>)>>)}
 KeyLists == {SeqV(TList(TStr), s) : s \in SeqsUpTo(Keys1, 2)} \cup {SeqV(TList(TStr), <<StrV(<<"a">>), StrV(<<"a">>)>>)}
 SameTy(S) == {p \in S \X S : TEquals(p[1].ty, p[2].ty)}
-ArgLists ==
+\* different numbers that agree in their leading digits, and one number given twice (membership and duplicate tests are by value)
+D(s) == K(TNum, [dec |-> s])
+CloseLists == {SeqV(TList(TNum), s) : s \in {<<D("1700000000001"), D("1700000000002")>>, <<D("1700000000001"), D("1700000000002"), D("1700000000001")>>,
+                                             <<D("100000000001/100000000000"), D("100000000002/100000000000"), NumV(4)>>, <<D("12345678901"), D("12345678902"), D("12345678901")>>,
+                                             <<K(TNum, [lm |-> "u64max"]), K(TNum, [lm |-> "u64maxp"]), K(TNum, [lm |-> "u64maxpp"]), K(TNum, [lm |-> "u64maxp"])>>}}
+CloseSets == {SeqV(TSet(TNum), s) : s \in {<<D("1700000000001"), D("1700000000002")>>, <<D("1700000000001")>>, <<D("12345678901"), D("12345678902")>>, <<K(TNum, [lm |-> "u64maxp"]), K(TNum, [lm |-> "u64maxpp"])>>}}
+ArgLists0 ==
   CASE Fn = "length" -> {<<v>> : v \in Lists \cup Tuples \cup VOf(MT) \cup VOf(ST)}
     [] Fn = "element" -> {<<v, i>> : v \in TakeN(Lists, 40) \cup Tuples, i \in Idx}
     [] Fn \in {"index", "hasindex"} -> {<<v, i>> : v \in TakeN(Lists, 25) \cup TakeN(Tuples, 12), i \in Idx \cup {StrV(<<"a">>)}}
@@ -60,6 +66,12 @@ ArgLists ==
                          \cup {<<SeqV(TTup(<<TSet(TStr), TList(TList(TNum)), TNum>>), <<SeqV(TSet(TStr), <<StrV(<<"a">>)>>), SeqV(TList(TList(TNum)), <<SeqV(TList(TNum), <<NumV(4), NumV(8)>>), SeqV(TList(TNum), <<>>)>>), NumV(0)>>)>>,
                                <<SeqV(TList(TSet(TList(TNum))), <<SeqV(TSet(TList(TNum)), <<SeqV(TList(TNum), <<NumV(4)>>)>>)>>)>>}
     [] Fn = "sethaselement" -> UNION {{<<s, x>> : s \in Vals(t, W), x \in Members_(t.e, W)} : t \in ST}
+    [] OTHER -> {}
+ArgLists == ArgLists0 \cup
+  CASE Fn = "distinct" -> {<<v>> : v \in CloseLists}
+    [] Fn = "contains" -> {<<v, x>> : v \in CloseLists \cup CloseSets, x \in {D("1700000000002"), D("1700000000003"), D("12345678902"), K(TNum, [lm |-> "u64maxpp"])}}
+    [] Fn \in {"setunion", "setintersection", "setsymmetricdifference", "setsubtract"} -> {<<x, y>> : x \in CloseSets, y \in CloseSets}
+    [] Fn = "sethaselement" -> {<<s, x>> : s \in CloseSets, x \in {D("1700000000002"), D("1700000000003"), K(TNum, [lm |-> "u64maxp"])}}
     [] OTHER -> {}
 WeakOfArgs(a) == UNION {{[a EXCEPT ![i] = w] : w \in (IF Thorough THEN Weak1(a[i], FALSE) ELSE TakeN(Weak1(a[i], FALSE), 5) \cup TakeN(Weak1(a[i], TRUE), 4))} : i \in 1..Len(a)}
 \* bases for weakening: argument lists on which the reference says the call succeeds
